@@ -377,10 +377,10 @@ def nontrivial(case: dict[str, Any]) -> bool:
 
 
 def shards(tier: str) -> list[dict[str, Any]]:
-    L = 3 if tier == "quick" else 4
+    L = 3 if tier == "quick" else 5
     out = [{"what": "exh", "maxlen": L, "first": c} for c in ALPHABET]
     out.append({"what": "exh", "maxlen": 0, "first": ""})
-    out += [{"what": "gen", "n": 600 if tier == "quick" else 12000} for _ in range(4)]
+    out += [{"what": "gen", "n": 600 if tier == "quick" else 40000} for _ in range(4 if tier == "quick" else 6)]
     out.append({"what": "long"})
     return out
 
